@@ -3,6 +3,8 @@ import warnings
 
 warnings.simplefilter("ignore")
 
+import random
+
 import complib
 import sexp
 
@@ -28,6 +30,9 @@ RULE = ("one case = (compiler, small generated problem inside the compiler's sup
         "sorted lists of action variants (origin action, parameters, sorted preconditions, effects), goals and trajectory constraints; "
         "the origin is read off the real map-back of one ground instance per variant (i-th parameter = (i mod n)-th object of its type), "
         "which must also keep the argument tuple (the model's backLifted). "
+        "for the Grounder (40 / 400 further grounder-only cases) the real compiler is run with prune_actions True (its default) AND "
+        "False and every ground action is compared IN ORDER: name, action and arguments it maps back to (lift_action_instance), "
+        "preconditions in order, effects. "
         "Non-trivial = at least one valid compiled plan of length >= 1 was mapped back and judged.")
 ASSUMPTIONS = [
     "validity of a plan = applicable step by step from the initial state and goal-satisfying in the final state according to the real "
@@ -48,13 +53,19 @@ ASSUMPTIONS = [
 MODELLED = [
     "modelled by hand in Lean (tied by the variant correspondence): " + ", ".join(complib.MODELLED) + " (see Core/Compile/*.lean)",
     "NOT modelled (no theorem; end-to-end differential only): UsertypeFluentsRemover, TrajectoryConstraintsRemover, "
-    "UndefinedInitialNumericRemover, NegativeConditionsRemover, Grounder, CompilersPipeline composition on real problems",
+    "UndefinedInitialNumericRemover, NegativeConditionsRemover, CompilersPipeline composition on real problems",
+    "Grounder (Core/Compile/Grounder.lean): grounding_actions_map = None, user-typed action parameters, instantaneous actions, no "
+    "MinimizeActionCosts metric (ground_minimize_action_costs_metric is outside the model); the cache of GrounderHelper is not "
+    "modelled; the simplifier is C11's verified model, configured with the problem's static fluents / initial values when "
+    "prune_actions (Simplifier(env, problem)) and without problem otherwise (env.simplifier)",
     "the simplifier and the DNF walker are parameters of the theorems (properties C11 / C12 own their models)",
 ]
 BUDGET_S = {"quick": 40, "thorough": 400}
 SEARCH_S = {"quick": 60, "thorough": 240}
 
 N_PER_COMPILER = {"quick": 20, "thorough": 200}
+# further grounder-only cases (cheap: depth 2 / tier depth), for the model correspondence of Core/Compile/Grounder.lean
+N_GROUNDER_EXTRA = {"quick": 40, "thorough": 400}
 
 
 def tier_depth(tier):
@@ -65,6 +76,18 @@ def cases(rng, tier):
     complib.set_tier(tier)
     n = N_PER_COMPILER["quick" if tier == "quick" else "thorough"]
     depth = tier_depth(tier)
+    # the grounder-only cases come first (the generation budget of run_check cuts the END of this stream); they draw
+    # from a generator derived from `rng` without advancing it, so the rotation below is what it always was
+    sub = random.Random()
+    sub.setstate(rng.getstate())
+    for _ in range(997):
+        sub.random()
+    for _ in range(N_GROUNDER_EXTRA["quick" if tier == "quick" else "thorough"]):
+        for _try in range(400):
+            c = complib.gen_case(sub, "grounder", 2 if tier == "quick" else depth)
+            if c is not None:
+                yield c
+                break
     for _ in range(n):
         for comp in complib.COMPILERS:
             for _try in range(400):
@@ -118,6 +141,7 @@ CAUSES = [
     ("C06-ncr-add-after-delete", complib.cause_bool_add_and_delete),
     ("C06-utf-conflicting-object-assignments", complib.cause_object_fluent_conflict),
     ("C06-uin-conditional-effects", complib.cause_undefined_conditional),
+    ("C06-static-conflict-coinciding-values", complib.cause_static_conflict_sound),
 ]
 
 
@@ -132,7 +156,7 @@ def shrink(payload):
     yield from complib.shrink_case(payload)
 
 
-EXTRA_PROPS = ["UPVerif.Props.C06Lift"]
+EXTRA_PROPS = ["UPVerif.Props.C06Lift", "UPVerif.Props.C06Ground"]
 
 MANIFEST = {
     "level_text": ("Lean 4 theorems (Props/C06.lean): a generic forward-simulation theorem over abstract transition systems "
@@ -140,7 +164,13 @@ MANIFEST = {
                    "instantiated with the declarative successor semantics of C01 (Spec/Successor.lean) for the models of "
                    "ConditionalEffectsRemover (repaired: conflicting variants skipped, conditional forall effects expanded), "
                    "StateInvariantsRemover (invariants added to every precondition and the goal: simulation up to viability) and "
-                   "the action split of DisjunctiveConditionsRemover; five compiler models (these three, BoundedTypesRemover, "
+                   "the action split of DisjunctiveConditionsRemover; Props/C06Ground.lean: the Grounder (prune_actions False and "
+                   "True: static-fluent pruning, parameter substitution, simplification, dropped effects, naming, map-back) on ALL "
+                   "instances of lifted actions — a ground action's step is the step of the instance it maps back to, static "
+                   "fluents keep their initial value in every reachable state, soundness for every plan length and trace "
+                   "preservation, for the instance as written and for the real simulator's reading (which grounds the instance "
+                   "first) with a kernel-checked refutation of the latter without the decidable hypothesis that excludes "
+                   "finding C06-static-conflict-coinciding-values; six compiler models (these four, BoundedTypesRemover, "
                    "QuantifiersRemover) are tied to /repo by a differential comparison of the compiled problems; for ALL ten "
                    "compilers and six pipelines the property itself is decided on the real code by an exhaustive end-to-end "
                    "differential (every plan of the compiled problem up to length 3/4)."),
@@ -150,7 +180,10 @@ MANIFEST = {
                    "instances; the latter is discharged for the C11 simplifier model / C12 DNF model from their own theorems "
                    "where the instantiated expressions are defined (WalkOK: state typing and definedness stay hypotheses). "
                    "Still: quantifier-free invariants, DisjunctiveConditionsRemover "
-                   "without split effect conditions; no theorem for BoundedTypesRemover, QuantifiersRemover, Grounder, "
+                   "without split effect conditions. The Grounder theorems (Props/C06Ground.lean) cover all instances; their remaining "
+                   "hypotheses are the exactness of the simplifier parameter on closed instances in states that agree with the "
+                   "initial state on the static fluents, and decidable checks: no forall variable vanishes in the simplification, "
+                   "dropped effects have constant / bound-variable target arguments. No theorem for BoundedTypesRemover, QuantifiersRemover, "
                    "NegativeConditionsRemover (model or differential only), UsertypeFluentsRemover, TrajectoryConstraintsRemover, "
                    "UndefinedInitialNumericRemover (end-to-end differential only). The simplifier / DNF walker are parameters assumed "
                    "exact in every evaluation context (C11 / C12 prove exactness where expressions are defined). Open findings "
